@@ -238,11 +238,15 @@ pub fn context_devs() -> Vec<Dev> {
             s.syntax.push("in-fn".into());
             true
         }),
-        dev("context: a `type Result<T> = ..` alias is in scope where the enum is declared", &["ctx"], |s| {
+        dev("context: a `type Result<T> = ..` alias is in scope where the enum is declared", &["ctx", "evis", "dvis"], |s| {
             s.syntax.push("result-alias".into());
             true
         }),
-        dev("context: an iterator extension trait with `fn get(&mut self, usize)` is in scope (as itertools has)", &["ctx"], |s| {
+        dev("context: the enum is declared through a macro_rules! macro (custom error type / function passed as macro arguments)", &["ctx"], |s| {
+            s.syntax.push("via-macro".into());
+            true
+        }),
+        dev("context: an iterator extension trait with `fn get(&mut self, usize)` is in scope (as itertools has)", &["ctx", "evis", "dvis"], |s| {
             s.syntax.push("iter-ext-trait".into());
             true
         }),
@@ -358,4 +362,13 @@ pub fn generics_all_used(s: &EnumSpec) -> bool {
         Generic::Const { .. } => true, // a const parameter need not be used
         Generic::Lifetime { name } => text.contains(&format!("'{}", name)),
     })
+}
+
+/// Scope deviation for the derives whose generated code is written with full paths for the prelude's Ok / Err / Some / None
+/// (all but EnumIter and EnumTryAs on the unchanged tree): these names are re-bound where the enum is declared.
+pub fn rebound_prelude_devs() -> Vec<Dev> {
+    vec![dev("context: Ok / Err / Some / None are re-bound in the scope of the enum", &["ctx", "evis", "dvis", "dd"], |s| {
+        s.syntax.push("rebound-prelude-fns".into());
+        true
+    })]
 }
